@@ -378,6 +378,7 @@ type retryRun struct {
 	inboundAt map[int]string // message -> handler registered when it was fed
 	curHandle int
 	released  int // dial gate releases so far
+	discDone  chan error
 }
 
 func (r *retryRun) dialPending() bool {
@@ -654,11 +655,21 @@ func runRetryScript(cfg, method, faultStr string, evs []string, plan []planPoint
 					}
 				}()
 			}
-			dctx, cancel := context.WithTimeout(ctx, 3*time.Second)
-			if err := cli.Disconnect(dctx); err != nil && errors.Is(err, context.DeadlineExceeded) {
-				r.planMiss = append(r.planMiss, fmt.Sprintf("ev%d(disc):disconnect-did-not-return", i))
+			// Disconnect returns when the loop has finished; while the loop is inside Connect (waiting for
+			// CONNACK) that takes until the CONNACK gate is resolved, so the script goes on meanwhile
+			if r.discDone == nil {
+				r.discDone = make(chan error, 1)
+				go func() {
+					dctx, cancel := context.WithTimeout(ctx, 8*time.Second)
+					defer cancel()
+					r.discDone <- cli.Disconnect(dctx)
+				}()
+				// the call has taken effect once the client refuses new requests
+				deadline := time.Now().Add(3 * time.Second)
+				for time.Now().Before(deadline) && !r.rc.VerifStopped() {
+					time.Sleep(100 * time.Microsecond)
+				}
 			}
-			cancel()
 		}
 		if i < len(plan) {
 			if plan[i].stuck {
@@ -673,6 +684,16 @@ func runRetryScript(cfg, method, faultStr string, evs []string, plan []planPoint
 	}
 	// final settle: anything the model did not predict shows up in the trace
 	time.Sleep(25 * time.Millisecond)
+	if r.discDone != nil {
+		select {
+		case err := <-r.discDone:
+			if err != nil && errors.Is(err, context.DeadlineExceeded) {
+				r.planMiss = append(r.planMiss, "disc:disconnect-did-not-return")
+			}
+		case <-time.After(9 * time.Second):
+			r.planMiss = append(r.planMiss, "disc:disconnect-did-not-return")
+		}
+	}
 	return r
 }
 
